@@ -10,9 +10,12 @@ from sa import summary
 LEVELS = (('DiffXFileSection', 'file'), ('DiffXChangeSection', 'change'), ('DiffX', 'top'))
 
 
+CONTENT_SLOT = ['_content']     # set by run() from the content property's getter
+
+
 def meta_dicts(obj):
     ms = obj.attrs.get('meta_section')
-    return ms.attrs.get('_content') if isinstance(ms, AObj) else None
+    return ms.attrs.get(CONTENT_SLOT[0]) if isinstance(ms, AObj) else None
 
 
 def run(P, rep, tier):
@@ -29,6 +32,7 @@ def run(P, rep, tier):
     rep.undecided = 'count exactness (+/- lines inside hunks); delegated to C14 which itself does not decide hunk geometry'
     rep.trusted_base += ['dict update/get/in semantics as modelled', 'summaries of utils/text.py and the hunk parser']
     D = DomRoles(P)
+    CONTENT_SLOT[0] = D.content_slot()
     I = Interp(P)
     hp = P.func('pydiffx.utils.unified_diffs', 'get_unified_diff_hunks')
     I.stubs.update(summary.stubs_for(P, summary.text_utils(P)))
@@ -80,10 +84,10 @@ def run(P, rep, tier):
                         own = o is obj
                         md = ADict({}, open_=True, taint=['OLDMETA'] + (['OWNOLD'] if own else ['CHILDMETA']), name='meta(%s)' % o.cls.name)
                         md.valkinds = None
-                        ms.attrs['_content'] = md
+                        ms.attrs[CONTENT_SLOT[0]] = md
                 if cname == 'DiffXFileSection':
                     ds = obj.attrs['diff_section']
-                    ds.attrs['_content'] = Unk('diff', kinds=['bytes', 'NoneType'], taint=['ARG'], src=('diff',))
+                    ds.attrs[CONTENT_SLOT[0]] = Unk('diff', kinds=['bytes', 'NoneType'], taint=['ARG'], src=('diff',))
                     ds.attrs['options'] = ADict({}, open_=True, taint=['OPT'], name='diffopts')
                     ds.attrs['options'].valkinds = frozenset(['str'])
                 mark = len(I.events)
@@ -103,6 +107,7 @@ def run(P, rep, tier):
         feedback = {}
         sum_ok = sum_bad = 0
         child_src_bad = {}
+        key_mix = {}
         enc_bad = None
         lines_bad = None
         lines_ok = 0
@@ -123,6 +128,9 @@ def run(P, rep, tier):
                     k = concrete(ev.data['key'])
                     if k != 'stats':
                         bad_merge.setdefault('other-key', (ev, 'metadata key %r is overwritten' % (k,)))
+                    elif not ev.data.get('was_absent') and isinstance(ev.data['value'], ADict) and ev.data['value'].open \
+                            and 'OWNOLD' in ev.data['value'].taint:
+                        ok_merge += 1      # a new mapping built from the previous one (its keys are carried over)
                     elif not ev.data.get('was_absent'):
                         bad_merge.setdefault('overwrite', (ev, 'an existing "stats" mapping (with custom keys) is replaced, not merged'))
                     else:
@@ -193,9 +201,18 @@ def run(P, rep, tier):
                 for ev in stores:
                     val = ev.data.get('value') if ev.kind == 'item-store' else ev.data.get('arg')
                     if isinstance(val, ADict):
+                        from sa.props.reader_rules import src_chain
                         for k, v in val.items.items():
                             if 'CHILDRET' in taint_of(v):
                                 child_src_bad.setdefault(k, ev)
+                            # key-wise: the total stored under k adds up what the children report under the same k
+                            leaf_keys = set()
+                            for x in src_chain(v):
+                                if x.src and x.src[0] == 'item' and len(x.src) > 2 and is_concrete(x.src[2]) and 'CHILDMETA' in taint_of(x):
+                                    leaf_keys.add(concrete(x.src[2]))
+                            leaf_keys.discard('stats')
+                            if leaf_keys and leaf_keys != {k}:
+                                key_mix.setdefault(k, (ev, sorted(leaf_keys)))
         written[level] = keys_written
         read_from_child[level] = _const_reads(gs)
         inst = '%s.generate_stats' % cname
@@ -251,6 +268,14 @@ def run(P, rep, tier):
                           path=[inst])
         elif child_gs is not None:
             rep.ok(r5, inst + ' totals from child metadata')
+        if key_mix:
+            k = sorted(key_mix)[0]
+            rep.violation(r5, '%s:total-from-other-keys:%s' % (level, k), key_mix[k][0].loc,
+                          '%s: the total %r is computed from the children\'s %s instead of from what they report under %r: a child whose '
+                          'figures are not related that way (kept statistics of a file that was not analysed) makes the total differ from '
+                          'the sum of what the children report' % (inst, k, key_mix[k][1], k), path=[inst])
+        elif child_gs is not None:
+            rep.ok(r5, inst + ' totals are key-wise sums')
     r7 = rep.rule('C13-R7', 'undeclared line endings are detected from the first line only (shared rule)', reference=1)
     from sa.props.common import first_line_detection
     first_line_detection(P, rep, r7)
@@ -299,15 +324,42 @@ def _child_stats_dict(d, obj, t):
     return False
 
 
+def _is_child_stats_expr(e, self_name):
+    """x.meta['stats'] / x.meta.get('stats', ...) for an x that is not the method's own object."""
+    if isinstance(e, ast.Subscript) and isinstance(e.slice, ast.Constant) and e.slice.value == 'stats':
+        base = e.value
+    elif isinstance(e, ast.Call) and isinstance(e.func, ast.Attribute) and e.func.attr == 'get' and e.args \
+            and isinstance(e.args[0], ast.Constant) and e.args[0].value == 'stats':
+        base = e.func.value
+    else:
+        return False
+    root = base
+    while isinstance(root, (ast.Attribute, ast.Subscript, ast.Call)):
+        root = root.value if not isinstance(root, ast.Call) else root.func
+    return not (isinstance(root, ast.Name) and root.id == self_name)
+
+
 def _const_reads(gs):
-    """Constant keys read (via [...] or .get) from a variable named *_stats that is not the local 'stats'."""
+    """Constant keys read (via [...] or .get) from a child's statistics mapping: from a local bound to
+    ``child.meta['stats']`` / ``child.meta.get('stats', ...)`` (whatever the local is called) or from such an
+    expression directly."""
+    self_name = gs.params()[0] if gs.params() else 'self'
+    holders = set()
+    for n in walk_no_nested(gs.node):
+        if isinstance(n, ast.Assign) and len(n.targets) == 1 and isinstance(n.targets[0], ast.Name) \
+                and _is_child_stats_expr(n.value, self_name):
+            holders.add(n.targets[0].id)
+        if isinstance(n, ast.NamedExpr) and isinstance(n.target, ast.Name) and _is_child_stats_expr(n.value, self_name):
+            holders.add(n.target.id)
+
+    def from_child(v):
+        return (isinstance(v, ast.Name) and v.id in holders) or _is_child_stats_expr(v, self_name) \
+            or (isinstance(v, ast.NamedExpr) and _is_child_stats_expr(v.value, self_name))
     out = set()
     for n in walk_no_nested(gs.node):
-        if isinstance(n, ast.Subscript) and isinstance(n.value, ast.Name) and n.value.id.endswith('_stats') \
-                and isinstance(n.slice, ast.Constant) and isinstance(n.ctx, ast.Load):
+        if isinstance(n, ast.Subscript) and from_child(n.value) and isinstance(n.slice, ast.Constant) and isinstance(n.ctx, ast.Load):
             out.add(n.slice.value)
         if isinstance(n, ast.Call) and isinstance(n.func, ast.Attribute) and n.func.attr == 'get' \
-                and isinstance(n.func.value, ast.Name) and n.func.value.id.endswith('_stats') and n.args \
-                and isinstance(n.args[0], ast.Constant):
+                and from_child(n.func.value) and n.args and isinstance(n.args[0], ast.Constant):
             out.add(n.args[0].value)
     return out
